@@ -31,6 +31,9 @@ type scen struct {
 	StopAt   int  `json:"stop_at,omitempty"`
 	Operator int  `json:"operator,omitempty"`
 	F        int  `json:"f,omitempty"`
+	// DiskFullFrom: from this virtual second on the disk is full and stays full (0 = readings are
+	// a choice at every tick): a stop request then finds the pipeline paused by the disk watchdog
+	DiskFullFrom int `json:"disk_full_from,omitempty"`
 
 	Scripts []string `json:"scripts"` // one per controller, over {P,R}
 	Stop    bool     `json:"stop"`    // a shutdown thread runs the stop sequence once the controllers are done
@@ -41,6 +44,9 @@ type scen struct {
 
 func (s *scen) name() string {
 	if s.Watchers {
+		if s.DiskFullFrom > 0 {
+			return fmt.Sprintf("watchers disk-full-from=%ds stop-at=%ds operator-at=%ds w%d", s.DiskFullFrom, s.StopAt, s.Operator, s.Workers)
+		}
 		return fmt.Sprintf("watchers stop-at=%ds operator-at=%ds w%d", s.StopAt, s.Operator, s.Workers)
 	}
 	return fmt.Sprintf("scripts=%s stop=%v seeds=%d w%d", strings.Join(s.Scripts, "|"), s.Stop, s.Seeds, s.Workers)
@@ -86,7 +92,11 @@ func scenario(s *scen) *vsched.Scenario {
 			vsched.StatfsAnswer = func(path string, st *syscall.Statfs_t) error {
 				st.Bsize, st.Blocks = 4096, 1<<30
 				st.Bavail = 1 << 29 // 2 TiB free
-				if vsched.Choose("h:the disk is almost full at this tick", 2) == 1 {
+				if s.DiskFullFrom > 0 {
+					if vsched.Cur().Now() >= time.Duration(s.DiskFullFrom)*time.Second {
+						st.Bavail = 10
+					}
+				} else if vsched.Choose("h:the disk is almost full at this tick", 2) == 1 {
 					st.Bavail = 10
 				}
 				return nil
@@ -159,7 +169,18 @@ func scenario(s *scen) *vsched.Scenario {
 	sc.Horizon = 10 * time.Minute
 	sc.DelayBounding = true
 	sc.OKEnds = []string{vsched.EndQuiescent, vsched.EndDeadlock, vsched.EndDone}
-	sc.AtEnd = func(x *vsched.Exec) error { return oracle(s, x, w, o) }
+	if s.DiskFullFrom > 0 {
+		sc.OKEnds = append(sc.OKEnds, vsched.EndHorizon) // judged below: a watchdog that ticks for ever never goes quiescent
+	}
+	sc.AtEnd = func(x *vsched.Exec) error {
+		if x.End == vsched.EndHorizon {
+			if !o.stopReturned {
+				return fmt.Errorf("stop-blocked: the stop sequence had not returned after %v of virtual time (paused now: %v); parked: %s", sc.Horizon, pause.IsPaused(), strings.Join(x.Blocked(), "; "))
+			}
+			return fmt.Errorf("never-quiescent: threads still take steps %v after the stop returned", sc.Horizon)
+		}
+		return oracle(s, x, w, o)
+	}
 	sc.Outcome = func(x *vsched.Exec) string {
 		return fmt.Sprintf("paused=%v finished=%d fetches=%d", pause.IsPaused(), w.FinishedCount(), len(w.Log))
 	}
@@ -360,22 +381,33 @@ func scenarios(tier string) []scen {
 			if a == "" && b == "" {
 				continue
 			}
-			sc := scen{Scripts: []string{a, b}, Seeds: 1, Workers: 1, P: P}
+			// one worker per stage, one seed: one deviation more than elsewhere (a pause that lands
+			// while a worker holds a seed AND a resume that overtakes a worker both need their own)
+			sc := scen{Scripts: []string{a, b}, Seeds: 1, Workers: 1, P: P + 1}
 			if a == "" {
 				sc.Scripts = []string{b}
+				if tier == "thorough" {
+					sc.P = P + 2
+				}
 			}
 			out = append(out, sc)
 		}
 	}
 	for _, a := range scripts(3) {
 		if len(a) == 3 {
-			out = append(out, scen{Scripts: []string{a}, Seeds: 1, Workers: 1, P: P})
+			out = append(out, scen{Scripts: []string{a}, Seeds: 1, Workers: 1, P: P + 1})
 		}
 	}
 	// the real watchdogs and the operator as independent controllers, then the real stop order
 	for _, stopAt := range []int{4, 12, 23} {
 		for _, op := range []int{0, 6, 11} {
 			out = append(out, scen{Watchers: true, StopAt: stopAt, Operator: op, Seeds: 1, Workers: 1, P: P - 1, F: P})
+		}
+	}
+	// the disk fills up for good: the stop request finds the pipeline paused by the disk watchdog
+	for _, stopAt := range []int{12, 23} {
+		for _, op := range []int{0, 11} {
+			out = append(out, scen{Watchers: true, DiskFullFrom: 4, StopAt: stopAt, Operator: op, Seeds: 1, Workers: 1, P: P - 1, F: P})
 		}
 	}
 	// shutdown after the controllers: paused or not
